@@ -949,9 +949,19 @@ def trace_survey_oracle(events, methods_cfg):
         if kind == "c05-error":
             add("C05:wholerun:trace-wrapper-error", "observation wrapper raised", {"error": e[1]})
         elif kind == "c05cov":
-            (_, day, m, site, eqg, comp, k, eid, rep, start, rate, before, after, emitting, own_p, draws) = e
+            (_, day, m, site, eqg, comp, k, eid, rep, start, rate, before, after, emitting, own_p, draws) = e[:16]
             stats["cov_calls"] += 1
             key = (k, m)
+            # the probabilities an emission carries must be those of THIS run's configuration (the generated
+            # whole-run configurations have no per-site / per-source overrides)
+            mc = methods_cfg.get(m)
+            if mc is not None and (own_p != float(mc["spatial"]) or (len(e) > 16 and e[16] != float(mc["temporal"]))):
+                add("C05:wholerun:coverage:emission-carries-another-probability-than-configured",
+                    "an emission surveyed in this run carries a coverage probability for the method that is not the one "
+                    "configured for this run",
+                    {"day": day, "method": m, "emission": [site, eqg, comp, eid, rep, start],
+                     "carried": [own_p, e[16] if len(e) > 16 else None],
+                     "configured": [float(mc["spatial"]), float(mc["temporal"])]})
             if before is None:
                 stats["first_rolls"] += 1
                 if len(draws) != 1 or draws[0][0] != own_p or draws[0][1] != after:
@@ -990,6 +1000,12 @@ def trace_survey_oracle(events, methods_cfg):
         elif kind == "c05rep":
             (_, day, m, site, level, mdl_f, st, sm, units, ret) = e
             stats["surveys"] += 1
+            mc = methods_cfg.get(m)
+            if mc is not None and float(mc["mdl"]) != mdl_f:
+                add("C05:wholerun:mdl:sensor-uses-another-limit-than-configured",
+                    "the sensor of a method works with another detection limit than configured for this run",
+                    {"survey": [day, m, site], "sensor": mdl_f, "configured": float(mc["mdl"])})
+                mdl_f = float(mc["mdl"])
             mdl = Fraction(mdl_f)
             covs = pend_cov.pop(m, [])
             vis = []
@@ -1191,6 +1207,129 @@ def wholerun_one(args):
             shutil.rmtree(prior_root, ignore_errors=True)
 
 
+# ------------------------------------------------------------------------------------------------
+# two-run histories on ONE input / generator folder
+# ------------------------------------------------------------------------------------------------
+HISTORY_KINDS = {       # parameter, value in run 1, value in run 2
+    "spatial-1-to-0": ("spatial", 1.0, 0.0),
+    "spatial-0-to-1": ("spatial", 0.0, 1.0),
+    "temporal-1-to-0": ("temporal", 1.0, 0.0),
+    "temporal-0-to-1": ("temporal", 0.0, 1.0),
+    "mdl-low-to-1e9": ("mdl", 0.125, 1e9),
+    "mdl-1e9-to-low": ("mdl", 1e9, 0.125),
+    "spatial-half-to-0": ("spatial", 0.5, 0.0),
+}
+SEED_FILES = ("emis_preseed.p", "preseed.p")     # constants.file_name_constants.Generator_Files
+
+
+def history_configs(rng, kind):
+    """(cfg1, cfg2): one generated world, baseline + one program (OGI, AIR, OGI_FU); the two differ ONLY in one
+    coverage / detection-limit parameter of the program's methods"""
+    import copy
+    from harness import wholerun as W
+
+    cfg = W.make_config(rng, n_sims=1, ndays=rng.choice([120, 200]))
+    names = ["OGI", "AIR", "OGI_FU"]
+    par, v1, v2 = HISTORY_KINDS[kind]
+    out = []
+    for v in (v1, v2):
+        c = copy.deepcopy(cfg)
+        c["methods"] = {m: copy.deepcopy(cfg["methods"][m]) for m in names}
+        for m in names:
+            c["methods"][m].update({"spatial": 1.0, "temporal": 1.0})
+            c["methods"][m][par] = v
+        c["programs"] = [{"name": "P_none", "methods": []}, {"name": "P_M", "methods": names}]
+        c["baseline"] = "P_none"
+        c["pre_run_hook"] = TRACE_HOOK
+        out.append(c)
+    return out[0], out[1]
+
+
+def _canon_rows(rows):
+    return sorted(tuple(sorted(r.items())) for r in (rows or []))
+
+
+def wholerun_history_one(args):
+    """run 1 (configuration 1) and run 2 (configuration 2) on the same input folder, hence the same generator
+    folder; run 3 = configuration 2 in a fresh folder that holds only the seed files of the first.
+    Clauses, all about run 2: (a) the per-survey C05 oracle against configuration 2 (every surveyed emission
+    carries configuration 2's probabilities, detection limit of configuration 2); (b) if configuration 2 cannot
+    see anything (coverage 0 / limit 1e9) its program's records equal the baseline's, no tags, no measured rate;
+    (c) every program's records equal those of the fresh-folder run."""
+    import shutil
+    import tempfile
+    from harness import wholerun as W
+
+    seed, kind = args
+    cfg1, cfg2 = history_configs(random.Random(seed), kind)
+    root = tempfile.mkdtemp(prefix="ldarverif_c05hist_")
+    fresh = tempfile.mkdtemp(prefix="ldarverif_c05hist_")
+    out = {"seed": seed, "kind": kind, "findings": [], "stats": None, "rows": 0, "problem": None,
+           "run1_tags": 0, "run2_tags": 0}
+    try:
+        r1 = W.run_config(cfg1, debug=True, processes=1, trace=True, workdir=root)
+        if r1.rc != 0 and r1.emissions("P_none", 0) is None:
+            out["problem"] = "run 1 stopped: " + r1.log[-1200:]
+            return out
+        out["run1_tags"] = sum(1 for t in r1.trace if t.get("prog") == "P_M" for e in t["events"] if e and e[0] == "tag")
+        r2 = W.run_config(cfg2, debug=True, processes=1, trace=True, workdir=root, keep_inputs=True)
+        if r2.rc != 0 and r2.emissions("P_none", 0) is None:
+            out["problem"] = "run 2 stopped: " + r2.log[-1200:]
+            return out
+        gen = os.path.join(root, "inputs", "generator")
+        os.makedirs(os.path.join(fresh, "inputs", "generator"))
+        for f in SEED_FILES:
+            if os.path.exists(os.path.join(gen, f)):
+                shutil.copy(os.path.join(gen, f), os.path.join(fresh, "inputs", "generator", f))
+            else:
+                out["problem"] = "seed file %s not found in the generator folder" % f
+                return out
+        r3 = W.run_config(cfg2, debug=True, processes=1, trace=False, workdir=fresh)
+        if r3.rc != 0 and r3.emissions("P_none", 0) is None:
+            out["problem"] = "fresh-folder run stopped: " + r3.log[-1200:]
+            return out
+        F = []
+        ev = []
+        for t in r2.trace:
+            if t.get("prog") == "P_M":
+                ev = t["events"]
+        f_s, stats = trace_survey_oracle(ev, cfg2["methods"])
+        F += [(sig.replace("C05:wholerun:", "C05:wholerun:second-run:"), what, d) for (sig, what, d) in f_s]
+        out["stats"] = stats
+        out["run2_tags"] = sum(1 for e in ev if e and e[0] == "tag")
+        par, v1, v2 = HISTORY_KINDS[kind]
+        blind = (par in ("spatial", "temporal") and v2 == 0.0) or (par == "mdl" and v2 >= 1e9)
+        n, diffs = compare_with_baseline(r2, "P_M")
+        out["rows"] = n
+        nonzero = sum(1 for e in ev if e and e[0] == "c05rep" and e[7] != 0)
+        if blind and (diffs or out["run2_tags"] or nonzero):
+            F.append(("C05:wholerun:second-run:blind-program-differs-from-baseline",
+                      "second run on a used input folder: a program whose methods cannot see anything (%s = %s) has "
+                      "emission records that differ from the baseline's / tags / non-zero measured rates" % (par, v2),
+                      {"n_diffs": len(diffs), "diffs": diffs[:10], "tags": out["run2_tags"], "nonzero_reports": nonzero}))
+        for prog in ("P_none", "P_M"):
+            a, b = _canon_rows(r2.emissions(prog, 0)), _canon_rows(r3.emissions(prog, 0))
+            if a != b:
+                only2 = [dict(x) for x in a if x not in b][:3]
+                only3 = [dict(x) for x in b if x not in a][:3]
+                F.append(("C05:wholerun:second-run:records-differ-from-fresh-folder-run",
+                          "the emission records of the second run on a used input folder differ from those of the same "
+                          "configuration and seeds in a fresh folder",
+                          {"program": prog, "rows_second_run": len(a), "rows_fresh": len(b),
+                           "only_in_second_run": only2, "only_in_fresh": only3}))
+        seen = {}
+        kept = []
+        for f in sorted(F, key=lambda f: 0 if "second-run:blind" in f[0] or "fresh-folder" in f[0] else 1):
+            seen[f[0]] = seen.get(f[0], 0) + 1
+            if seen[f[0]] <= 2:
+                kept.append(f)
+        out["findings"] = kept
+        return out
+    finally:
+        shutil.rmtree(root, ignore_errors=True)
+        shutil.rmtree(fresh, ignore_errors=True)
+
+
 def wholerun_oracle(ctx):
     if not WHOLERUN_PRESENT:
         ctx.note("whole-run stages skipped: harness/wholerun.py absent")
@@ -1217,8 +1356,38 @@ def wholerun_oracle(ctx):
             shape["pool"] = True                     # worker pool instead of the sequential debug mode
             shape["n_sims"] = 2
         jobs.append((ctx.rng.randrange(1 << 30), kind, shape or None))
-    with ThreadPoolExecutor(max_workers=min(n, max(1, (os.cpu_count() or 2) // 2), 8)) as ex:
+    kinds = sorted(HISTORY_KINDS)
+    n_hist = ctx.pick(1, 5)
+    # quick: the covered-then-blind history; thorough: that one plus four others chosen by the seed
+    hjobs = [(ctx.rng.randrange(1 << 30), "spatial-1-to-0" if i == 0 else kinds[(i + ctx.seed) % len(kinds)])
+             for i in range(n_hist)]
+    with ThreadPoolExecutor(max_workers=min(n + n_hist, max(1, (os.cpu_count() or 2) // 2), 8)) as ex:
+        hfut = [ex.submit(wholerun_history_one, j) for j in hjobs]
         outs = list(ex.map(wholerun_one, jobs))
+        houts = []
+        for j, f in zip(hjobs, hfut):
+            try:
+                houts.append(f.result())
+            except (Exception, SystemExit) as e:
+                houts.append({"seed": j[0], "kind": j[1], "findings": [], "stats": None, "rows": 0,
+                              "problem": "harness/worker raised: " + _tb(e), "run1_tags": 0, "run2_tags": 0})
+    for h in houts:
+        inp = {"stage": "wholerun_history", "seed": h["seed"], "kind": h["kind"]}
+        ctx.count("wholerun-history:" + h["kind"])
+        if h["problem"]:
+            ctx.broke("whole-run history (%s, seed %d) could not be evaluated" % (h["kind"], h["seed"]), h["problem"])
+            ctx.disagree("wholerun.history", inp, "three runs complete", h["problem"][-300:])
+            continue
+        ctx.traces += 1
+        ctx.evaluations += h["rows"] + (h["stats"]["surveys"] if h["stats"] else 0)
+        ctx.count("wholerun-history:rows-compared", h["rows"])
+        ctx.count("wholerun-history:surveys-of-second-run-checked", h["stats"]["surveys"] if h["stats"] else 0)
+        ctx.count("wholerun-history:tags-in-run-1", h["run1_tags"])
+        ctx.count("wholerun-history:tags-in-run-2", h["run2_tags"])
+        if h["run1_tags"] or h["run2_tags"]:
+            ctx.nontrivial.add(("wholerun-history", h["kind"], min(h["run1_tags"], 3), min(h["run2_tags"], 3)))
+        for (sig, what, detail) in h["findings"]:
+            ctx.violate(sig, what, dict(inp, finding=detail))
     for out in outs:
         ctx.count("wholerun:configs")
         inp = {"stage": "wholerun", "seed": out["seed"], "with_fix": out["with_fix"], "shape": out.get("shape")}
@@ -1371,6 +1540,13 @@ def replay(ctx, data):
                             "", inp)
         finally:
             world.cleanup()
+    elif stage == "wholerun_history":
+        h = wholerun_history_one((inp["seed"], inp["kind"]))
+        print("history", h["kind"], "rows", h["rows"], "tags run 1 / run 2:", h["run1_tags"], h["run2_tags"],
+              "problem:", h["problem"])
+        for (sig, what, detail) in h["findings"]:
+            print("   ", sig, str(detail)[:300])
+            ctx.violate(sig, what, dict(inp, finding=detail))
     elif stage == "wholerun":
         out = wholerun_one((inp["seed"], inp.get("with_fix", False), inp.get("shape")))
         for prog, r in out["programs"].items():
